@@ -126,7 +126,7 @@ fn prefix_case(src: &mut Src, ctx: &mut Ctx) -> Result<(), String> {
 }
 
 // ---- (ii) single-token faults -----------------------------------------------------------------------------
-const REPLACEMENTS: &[&str] = &["END", ";", "42", "-0.5", "\"abc", "MACRO", "PIN", "LAYER", "RECT", "PORT", "VERSION", "UNITS", "PROPERTY", "BEGINEXT", "ENDEXT", "ITERATE", "DO", "SITE", "VIA", "LIBRARY", "#",
+const REPLACEMENTS: &[&str] = &["END", ";", "42", "-0.5", "0", "0.0", "-0", ".0", "-1", "\"abc", "MACRO", "PIN", "LAYER", "RECT", "PORT", "VERSION", "UNITS", "PROPERTY", "BEGINEXT", "ENDEXT", "ITERATE", "DO", "SITE", "VIA", "LIBRARY", "#",
     // numbers at the edges of the 96-bit decimal type behind every LEF number
     "79228162514264337593543950335", "-79228162514264337593543950335", "99999999999999999999999999999", "7922816251426433759354395033.5", "0.0000000000000000000000000001", "123456789012345678901234567890123456789",
     // words of few characters but many bytes (keyword lookup works on the text of the token)
